@@ -1073,7 +1073,13 @@ func (g *gen) sDeferLoop() {
 
 func (g *gen) sChan() {
 	g.f("chan:send-recv-pair")
-	g.line("ch <- %s", g.mod(g.intExpr(1)))
+	if g.r.Chance(1, 3) {
+		// the channel operand is itself a call that may suspend; it is evaluated before the value operand
+		g.f("chan:send-with-call-as-channel-operand")
+		g.line("y.G(ch, %d) <- %s", g.nextAtom(), g.mod(g.intExpr(1)))
+	} else {
+		g.line("ch <- %s", g.mod(g.intExpr(1)))
+	}
 	g.stmtStart()
 	if g.r.Bool() {
 		g.line("%s = <-ch", g.lhs())
@@ -1092,7 +1098,12 @@ func (g *gen) sSelect() {
 	case 0:
 		g.f("select:send-or-default")
 		g.line("select {")
-		g.line("case ch2 <- %s:", g.mod(g.intExpr(1)))
+		if g.r.Chance(1, 3) {
+			g.f("select:send-with-call-as-channel-operand")
+			g.line("case y.G(ch2, %d) <- %s:", g.nextAtom(), g.mod(g.intExpr(1)))
+		} else {
+			g.line("case ch2 <- %s:", g.mod(g.intExpr(1)))
+		}
 		g.line("\ta++")
 		g.line("default:")
 		g.line("\ta--")
